@@ -17,6 +17,7 @@ static QPTR: [std::sync::atomic::AtomicUsize; QUARANTINE] = [QZ; QUARANTINE];
 static QSIZE: [std::sync::atomic::AtomicUsize; QUARANTINE] = [QZ; QUARANTINE];
 static QALIGN: [std::sync::atomic::AtomicUsize; QUARANTINE] = [QZ; QUARANTINE];
 static QNEXT: std::sync::atomic::AtomicUsize = std::sync::atomic::AtomicUsize::new(0);
+static QTICK: std::sync::atomic::AtomicUsize = std::sync::atomic::AtomicUsize::new(0);
 static QLOCK: std::sync::atomic::AtomicBool = std::sync::atomic::AtomicBool::new(false);
 
 pub struct CountingAlloc;
@@ -48,7 +49,9 @@ unsafe impl GlobalAlloc for CountingAlloc {
             std::ptr::write_bytes(p, 0xFF, l.size());
             // ... and keep it out of circulation for a while (otherwise the very next allocation
             // of that size re-initialises the block and the stale reader sees a valid object)
-            if !QLOCK.swap(true, std::sync::atomic::Ordering::Acquire) {
+            // (every other block only: immediate address reuse must stay possible too, or
+            // pointer-comparison ABA mistakes could never show)
+            if QTICK.fetch_add(1, std::sync::atomic::Ordering::Relaxed) % 2 == 0 && !QLOCK.swap(true, std::sync::atomic::Ordering::Acquire) {
                 let i = QNEXT.load(std::sync::atomic::Ordering::Relaxed) % QUARANTINE;
                 QNEXT.store(i + 1, std::sync::atomic::Ordering::Relaxed);
                 let old = (QPTR[i].load(std::sync::atomic::Ordering::Relaxed), QSIZE[i].load(std::sync::atomic::Ordering::Relaxed), QALIGN[i].load(std::sync::atomic::Ordering::Relaxed));
